@@ -216,18 +216,49 @@ func (ClawbackVestingAccount).GetVestingPeriods
     inline
 
 alias EthAcc github.com/haqq-network/haqq/types.EthAccount
+
+// ---- abstract view of the x/auth account store (what GetAccount reads and SetAccount writes), per address:
+//   acct_iscva[a]  the stored account is a clawback vesting account
+//   acct_cva[a]    its stored value (schedule, funder, start time)          } meaningful only where acct_iscva[a]
+//   acct_bva[a]    the stored value of its embedded BaseVestingAccount (original vesting, delegation tracking, end time)
+alias BVA github.com/cosmos/cosmos-sdk/x/auth/vesting/types.BaseVestingAccount
+sort AcctFlag = (Array Addr Bool)
+sort AcctCVA = (Array Addr CVA)
+sort AcctBVA = (Array Addr BVA)
+world acct_iscva AcctFlag
+world acct_cva AcctCVA
+world acct_bva AcctBVA
+// address under which an account value is stored (BaseAccount.GetAddress: the decoded bech32 string)
+specfunc cva_addr(va CVA) Addr = addr_of_bech32(va.Address)
+specfunc eth_addr(e EthAcc) Addr = addr_of_bech32(e.Address)
+// lockup / vesting schedule of the account stored at a, as a function of time: the coins whose release event lies at
+// or before u (nothing for an account that is not a clawback vesting account)
+specfunc StoredLock(f AcctFlag, m AcctCVA, a Addr, u int) Coins = ite(f[a], Ended(time_unix(m[a].StartTime), m[a].LockupPeriods, len(m[a].LockupPeriods), u), coins_zero())
+specfunc StoredVest(f AcctFlag, m AcctCVA, a Addr, u int) Coins = ite(f[a], Ended(time_unix(m[a].StartTime), m[a].VestingPeriods, len(m[a].VestingPeriods), u), coins_zero())
+
 // ---- expected keepers of the vesting module (SDK implementations; assumed contracts)
-// stored accounts satisfy their representation invariant (what Validate() accepts)
+// stored accounts satisfy their representation invariant (what Validate() accepts) and are stored under their own address
 func (AccountKeeper).GetAccount
     trusted
     params ak, ctx, addr
     ensures isdyn(result, *CVA) ==> dyn(result, *CVA) != nil && dyn(result, *CVA) < $alloc && ValidCVA(*dyn(result, *CVA))
             && (*dyn(result, *CVA)).BaseVestingAccount < $alloc && (*dyn(result, *CVA)).BaseAccount != nil
             && cnonneg((*dyn(result, *CVA)).DelegatedFree) && cnonneg((*dyn(result, *CVA)).DelegatedVesting)
-    ensures isdyn(result, *EthAcc) ==> dyn(result, *EthAcc) != nil
+    ensures isdyn(result, *EthAcc) ==> dyn(result, *EthAcc) != nil && dyn(result, *EthAcc).BaseAccount != nil
+            && eth_addr(*dyn(result, *EthAcc)) == addr
+    ensures view_cva: isdyn(result, *CVA) ==> cva_addr(*dyn(result, *CVA)) == addr && acct_iscva[addr]
+            && acct_cva[addr] == *dyn(result, *CVA) && acct_bva[addr] == *(dyn(result, *CVA).BaseVestingAccount)
+    ensures view_plain: !isdyn(result, *CVA) ==> !acct_iscva[addr]
+// SetAccount stores the account value under its own address (nothing is known after storing an account of a third kind)
 func (AccountKeeper).SetAccount
     trusted
-    pure
+    params ak, ctx, acc
+    modifies acct_iscva, acct_cva, acct_bva
+    let A = cva_addr(*dyn(acc, *CVA))
+    let E = eth_addr(*dyn(acc, *EthAcc))
+    ensures cva: isdyn(acc, *CVA) ==> acct_iscva == upd(old(acct_iscva), A, true) && acct_cva == upd(old(acct_cva), A, *dyn(acc, *CVA))
+            && acct_bva == upd(old(acct_bva), A, *(dyn(acc, *CVA).BaseVestingAccount))
+    ensures eth: isdyn(acc, *EthAcc) ==> acct_iscva == upd(old(acct_iscva), E, false) && acct_cva == old(acct_cva) && acct_bva == old(acct_bva)
 func (AccountKeeper).NewAccount
     trusted
     params ak, ctx, acc
@@ -265,6 +296,16 @@ func (ClawbackVestingAccount).GetLockedUpCoins
     ensures bounds: clte(result, va.OriginalVesting) && cnonneg(va.OriginalVesting)
     use return EndedBounds(time_unix(va.StartTime), va.LockupPeriods, len(va.LockupPeriods), time_unix(blockTime))
 
+// C08: "has locked coins" means that some coin of the grant is still locked up by the LOCKUP schedule at blockTime,
+// whether or not it is delegated
+func (ClawbackVestingAccount).HasLockedCoins
+    requires valid: ValidCVA(va)
+    ensures locked: result == !ciszero(csub(va.OriginalVesting, UnlockedAt(va, time_unix(blockTime))))
+    ensures delegated_counts: result == !ciszero(csub(Sum(va.LockupPeriods, len(va.LockupPeriods)), UnlockedAt(va, time_unix(blockTime))))
+// reads the CodeHash field only
+func (ClawbackVestingAccount).GetCodeHash
+    ensures true
+
 func (ClawbackVestingAccount).GetUnlockedVestedCoins
     requires valid: ValidCVA(va)
     ensures uv: result == cmin(UnlockedAt(va, time_unix(blockTime)), VestedAt(va, time_unix(blockTime)))
@@ -288,6 +329,9 @@ func NewClawbackVestingAccount
     ensures lockup: Ended(s, result.LockupPeriods, len(result.LockupPeriods), u) == Ended(s, lockupPeriods, len(lockupPeriods), u)
     ensures vesting: Ended(s, result.VestingPeriods, len(result.VestingPeriods), u) == Ended(s, vestingPeriods, len(vestingPeriods), u)
     ensures end: result.EndTime == imax(T(s, lockupPeriods, len(lockupPeriods)), T(s, vestingPeriods, len(vestingPeriods)))
+    ensures periods: len(result.LockupPeriods) == len(lockupPeriods) && len(result.VestingPeriods) == len(vestingPeriods)
+            && (forall k int :: 0 <= k && k < len(lockupPeriods) ==> result.LockupPeriods[k] == lockupPeriods[k])
+            && (forall k int :: 0 <= k && k < len(vestingPeriods) ==> result.VestingPeriods[k] == vestingPeriods[k])
     use return SchedFrame(s, lockupPeriods, result.LockupPeriods, len(lockupPeriods), u)
     use return SchedFrame(s, vestingPeriods, result.VestingPeriods, len(vestingPeriods), u)
 
